@@ -2,6 +2,7 @@ package main
 
 import (
 	"bytes"
+	"context"
 	"crypto/x509"
 	"encoding/json"
 	"errors"
@@ -12,6 +13,7 @@ import (
 	"github.com/notaryproject/notation-core-go/signature"
 	"github.com/notaryproject/notation-core-go/signature/cose"
 	"github.com/notaryproject/notation-core-go/signature/jws"
+	"github.com/notaryproject/tspclient-go"
 )
 
 func init() { register("C20", "Run.C20", genC20) }
@@ -27,6 +29,13 @@ func (f failingSigner) Sign([]byte) ([]byte, []*x509.Certificate, error) {
 	return nil, nil, errors.New("remote signer failed (injected)")
 }
 func (f failingSigner) KeySpec() (signature.KeySpec, error) { return f.ks, nil }
+
+// failingTimestamper: the time stamp authority cannot be reached (the format-level Sign fails after the signature was made)
+type failingTimestamper struct{}
+
+func (failingTimestamper) Timestamp(context.Context, *tspclient.Request) (*tspclient.Response, error) {
+	return nil, errors.New("time stamp authority unreachable (injected)")
+}
 
 type envFixture struct {
 	signer signature.Signer
@@ -148,8 +157,27 @@ func genC20(tier string, rng *RNG, w *CaseWriter) {
 		}
 		starts[mt] = start{valid: b, tampered: tamperSignature(mt, b)}
 	}
+	nHist := 0
+	tsaRoots := x509.NewCertPool()
+	tsaRoots.AddCert(f.chain[len(f.chain)-1])
 	runHistory := func(fmtIdx, startKind int, hist []string) {
 		mt := mediaTypes[fmtIdx]
+		nHist++
+		// other envelope objects of the same format live and work next to the one under test (every 4th history and
+		// all short ones): what they sign or verify must never show through the object under test
+		var sibling signature.Envelope
+		if nHist%4 == 0 || len(hist) <= 2 {
+			sibling, _ = signature.NewEnvelope(mt)
+		}
+		neighbour := func() {
+			if sibling == nil {
+				return
+			}
+			sibling.Sign(goodReq(9))
+			if p, err := signature.ParseEnvelope(mt, starts[mt].valid); err == nil {
+				p.Verify()
+			}
+		}
 		var env signature.Envelope
 		var err error
 		switch startKind {
@@ -199,8 +227,13 @@ func genC20(tier string, rng *RNG, w *CaseWriter) {
 					case "FI":
 						r = 5
 						req = goodReq(r)
-						ks, _ := f.signer.KeySpec()
-						req.Signer = failingSigner{ks}
+						if (nHist+len(ops))%2 == 0 {
+							ks, _ := f.signer.KeySpec()
+							req.Signer = failingSigner{ks}
+						} else { // the signer succeeds, the time stamp authority named by the request does not answer
+							req.Timestamper = failingTimestamper{}
+							req.TSARootCAs = tsaRoots
+						}
 						ops = append(ops, "(SignFailInner 5)")
 					case "FL":
 						r = 6
@@ -209,6 +242,7 @@ func genC20(tier string, rng *RNG, w *CaseWriter) {
 						ops = append(ops, "(SignFailLate 6)")
 					}
 					b, err := env.Sign(req)
+					neighbour()
 					if err != nil {
 						if b != nil {
 							outs = append(outs, "OOther")
@@ -233,6 +267,7 @@ func genC20(tier string, rng *RNG, w *CaseWriter) {
 						extra = 1
 					}
 				case "V":
+					neighbour()
 					ops = append(ops, "Verify")
 					a := classifyRead(env.Verify())
 					if b := classifyRead(env.Verify()); a != b {
